@@ -37,7 +37,8 @@ RULE = ('case = (environment or component, state, action) with its scramble / re
 ASSUMPTIONS = ['identity scans are diagnostics; the verdict is behavioural (a mutation on one side visible on the other)']
 REQUIRED = {'quick': {'purity.calls': 10000, 'alias.step_pairs': 3000, 'alias.observation': 1500, 'history.step': 3000,
                       'history.observation': 1500, 'history.shortest_path': 100, 'history.rays': 60, 'copy.checked': 800,
-                      'registry.purity': 5000, 'purity.component_calls': 3000, 'history.rebuild_equivalence': 500, 'pose.at_view_anchor': 30}}
+                      'registry.purity': 5000, 'purity.component_calls': 3000, 'history.rebuild_equivalence': 500, 'pose.at_view_anchor': 30,
+                      'userdata.arrays': 40, 'userdata.step_answered': 40}}
 
 
 def scramble(state, rng):
@@ -283,6 +284,64 @@ def transition_with_copy_experiments(ctx, state, action, rng, payload):
                           f'transition_with_copy({name}): mutating the result changed the input', 'twc_case', dict(payload, fn=name))
 
 
+def _carriers(state):
+    out = [o for row in state.grid.objects for o in row]
+    out.append(state.agent.grid_object)
+    for o in list(out):
+        while isinstance(o, Box):
+            o = o.content
+            out.append(o)
+    return out
+
+
+def _arrays(state):
+    return [getattr(o, 'heat').tolist() if hasattr(o, 'heat') else None for o in _carriers(state)]
+
+
+def user_data_experiments(ctx, env, state, action, label, payload, rng, unpicklable):
+    """objects of a state may carry user data outside (type, status, colour): numpy arrays (which pickle protocol 5 can hand
+    over by reference) and, in the second variant, something that cannot be pickled at all (a lambda).  functional_step may
+    refuse such a state, but if it answers, the answer must not share the arrays / objects with its input."""
+    carriers = [o for o in _carriers(state) if type(o).__name__ not in ('NoneGridObject',)]
+    if not carriers:
+        return
+    for o in rng.sample(carriers, min(len(carriers), 4)):
+        o.heat = np.arange(4096 if rng.random() < 0.5 else 5, dtype=float)  # large and small buffers
+    if unpicklable:
+        rng.choice(carriers).note = lambda: 0
+    pre, pre_arr = enc.es(state), _arrays(state)
+    env.set_seed(7)
+    ok, res = call_real(env.functional_step, state, action)
+    ctx.ev()
+    ctx.hit('userdata.unpicklable' if unpicklable else 'userdata.arrays')
+    if enc.es(state) != pre or _arrays(state) != pre_arr:
+        ctx.violation('purity', 'functional_step.mutates_input', f'{label}: functional_step({action.name}) modified its input state '
+                      f'(objects carrying user data{", one of them unpicklable" if unpicklable else ""})', 'userdata_case', payload)
+        return
+    if not ok:
+        ctx.hit('userdata.step_refused')
+        return
+    ns = res[0]
+    ctx.hit('userdata.step_answered')
+    for o in _carriers(ns):
+        h = getattr(o, 'heat', None)
+        if h is not None:
+            try:
+                h += 1.0
+            except ValueError:  # read-only buffer: cannot be written through, nothing to observe
+                pass
+    if _arrays(state) != pre_arr:
+        ctx.violation('alias', 'functional_step.next_state_shares_arrays',
+                      f'{label}: writing into an array attached to an object of the returned next state changed the array of the '
+                      f'input state (step {action.name})', 'userdata_case', payload)
+        return
+    scramble(ns, rng)
+    if enc.es(state) != pre:
+        ctx.violation('alias', 'functional_step.next_state_aliases_input',
+                      f'{label}: mutating the returned next state changed the input state (objects carrying user data'
+                      f'{", one unpicklable" if unpicklable else ""}; shared: {shared_ids(state, ns)})', 'userdata_case', payload)
+
+
 def shortest_path_history(ctx, rng):
     """more than 10 distinct layouts overflow dijkstra's LRU; answers must not depend on the query history"""
     fn = reward_fs.factory('getting_closer_shortest_path', object_type=Exit, reward_closer=1.0, reward_further=-1.0)
@@ -443,6 +502,11 @@ def run(ctx):
                     step_experiments(ctx, env, s, action, f'composition {comp.id}', dict(payload, action=action.name),
                                      deterministic, rng)
                 observation_experiments(ctx, env, dyndrive.copy_state(state), f'composition {comp.id}', payload, True, rng)
+                if k < 2:
+                    ua = rng.choice(list(Action))
+                    user_data_experiments(ctx, env, dyndrive.copy_state(state), ua, f'composition {comp.id}',
+                                          dict(payload, action=ua.name, unpicklable=bool(k), rng_key=[ctx.seed, c, k]),
+                                          gen.rng_for('C03ud', ctx.seed, c, k), bool(k))
                 if k == 0:
                     transition_with_copy_experiments(ctx, dyndrive.copy_state(state), rng.choice(list(Action)), rng, payload)
                 # a short real history, then rebuild-equivalence on the state it reaches
@@ -539,6 +603,10 @@ def replay(ctx, kind, payload):
             ray_history(ctx, rng)
             return
         state = enc.state_from_json(payload['state'])
+        if kind == 'userdata_case':
+            user_data_experiments(ctx, env, state, Action[payload['action']], 'replay', payload,
+                                  gen.rng_for('C03ud', *payload['rng_key']), payload['unpicklable'])
+            return
         copy_experiments(ctx, dyndrive.copy_state(state), rng, payload)
         acts = [Action[payload['action']]] if payload.get('action') else list(Action)
         for a in acts:
